@@ -67,7 +67,7 @@ def step (c : Cache) (line : String) : Cache × String :=
       if bits.length ≠ 11 ∨ bits.toList.any (fun ch => ch ≠ '0' ∧ ch ≠ '1') then "bad-op" else
       let a := Arch.ofBools (bits.toList.map (· == '1')) nr
       let cc := ColConsts.ofList cl
-      s!"{nbAdviceCols cc a} {nbFixedCols cc a}"
+      s!"{nbAdviceCols cc a}"
     | _, _ => "bad-op")
   | ["vk", f, nf, np, deg, hex] =>
     (c, match fmtOf? f, nf.toNat?, np.toNat?, deg.toNat?, parseHexBytes? hex with
@@ -78,7 +78,9 @@ def step (c : Cache) (line : String) : Cache × String :=
   | ["mvk", f, nf, np, deg, consts, hex] =>
     (c, match fmtOf? f, nf.toNat?, np.toNat?, deg.toNat?, parseNatList? consts, parseHexBytes? hex with
     | some f, some nf, some np, some deg, some cl, some bs =>
-      renderE (fun (m, r) => s!"{m.arch.render} mb={m.maxBitLen} pi={m.nbPublicInputs} {renderVK m.vk} rest={r.length}")
+      renderE (fun (m, r) =>
+          let canon := encodeMVKWith (encodeG1 f) m ++ r == bs
+          s!"{m.arch.render} mb={m.maxBitLen} pi={m.nbPublicInputs} {renderVK m.vk} rest={r.length} canon={fmtBool canon}")
         (decodeMVKWith (cachedDec c f) f.g1Size (ColConsts.ofList cl) (fun _ => ⟨nf, np, deg⟩) bs)
     | _, _, _, _, _, _ => "bad-op")
   | _ => (c, "bad-op")
